@@ -6,6 +6,7 @@ out=seeded/RESULTS.txt
 for d in seeded/*-*/; do
   id=$(basename $d); prop=${id%-*}
   tier=$(python3 -c "import json;print(json.load(open('$d/meta.json')).get('caught_tier','quick'))")
+  prop=$(python3 -c "import json;print(json.load(open('$d/meta.json')).get('caught_by','$prop'))")
   res=$(SEED_SKIP_TESTS=${SEED_SKIP_TESTS:-} tools/seedtest.sh $d/patch.diff $prop $tier 2>&1 | grep -a "SEEDTEST: \(CAUGHT\|MISSED\|build\|patch\|repository\|/repo\)" | tr '\n' ' ')
   echo "$id $tier: $res" | tee -a $out
 done
